@@ -330,6 +330,21 @@ def run(ctx):
 
             fx7 = _exp7(prog, f, local_only=True)
             val7 = P7.value_aliases(fx7)
+            # the maximum of what an attribute xpath returns is a maximum of *strings* ("9" > "10"): converting the winner afterwards
+            # (`int(max(vals))`) does not make it the numeric maximum
+            lexi = None
+            for c7 in ast.walk(fx7):
+                if isinstance(c7, ast.Call) and dotted(c7.func) == "max" and len(c7.args) == 1:
+                    a7 = ast.parse(P7.full(c7.args[0], val7, depth=6), mode="eval").body
+                    if isinstance(a7, ast.Call) and isinstance(a7.func, ast.Attribute) and a7.func.attr == "xpath" and a7.args:
+                        xs = ast.unparse(a7.args[0])
+                        if "/@" in xs:
+                            lexi = ast.unparse(c7)[:60]
+            if lexi:
+                ctx.violation("R7.4", "CT_PlotArea." + nm, "allocator takes `%s` of the strings an attribute xpath returns: the maximum is lexicographic "
+                              "(\"9\" beats \"10\"), so from the eleventh series on a value already in use is handed out again" % lexi,
+                              file=f.file, line=f.line)
+                continue
             single = []
             for r7 in P7.outcomes(fx7.body, P7.aliases(fx7)):
                 if r7.end != "return" or r7.path.end_node.value is None:
